@@ -34,6 +34,8 @@ pub enum Op {
     Alias { kind: u8, v: u8, amt: u16 },
     /// the vAMM owner re-points the vAMM's insurance-fund (what even) or margin-engine (what odd) setting to an outside address, or back
     Rewire { v: u8, what: u8 },
+    /// whale order sized (by bisection on a what-if copy) to be the largest one the vAMM's per-block band still accepts, or one unit beside it
+    PushEdge { v: u8, up: bool, knob: u16 },
 }
 
 #[derive(Clone, Debug, Serialize, Deserialize, PartialEq, Eq, Hash)]
@@ -66,6 +68,7 @@ pub struct Weights {
     pub alien: u32,
     pub alias: u32,
     pub rewire: u32,
+    pub edge: u32,
 }
 
 impl Weights {
@@ -92,6 +95,7 @@ impl Weights {
             alien: 0,
             alias: 0,
             rewire: 0,
+            edge: 0,
         }
     }
 }
@@ -295,6 +299,7 @@ pub fn op_strategy(w: &Weights) -> BoxedStrategy<Op> {
         (w.alien, 18),
         (w.alias, 19),
         (w.rewire, 20),
+        (w.edge, 21),
     ]
     .into_iter()
     .filter(|(wt, _)| *wt > 0)
@@ -332,7 +337,8 @@ pub fn op_strategy(w: &Weights) -> BoxedStrategy<Op> {
                 17 => Op::Shutdown,
                 18 => Op::RegisterAlien { add: b },
                 19 => Op::Alias { kind: s1 % 6, v, amt: k1 },
-                _ => Op::Rewire { v, what: s1 },
+                20 => Op::Rewire { v, what: s1 },
+                _ => Op::PushEdge { v, up: b, knob: k1 },
             }
         })
         .boxed()
